@@ -3,6 +3,7 @@
 from __future__ import annotations
 
 import ast
+import re
 
 from ..decision import NOTHING, Evaluator, Hooks, Sym, vtext
 from ..flow import provenance, stmt_of
@@ -52,50 +53,76 @@ def _is_codenode_test(t, var):
     return isinstance(t, ast.Call) and u(t.func) == "isinstance" and len(t.args) == 2 and u(t.args[0]) == var and u(t.args[1]) == "CodeNode"
 
 
-@rule("C06.R1", "the three per-file aggregations walk the same tree, filter CodeNodes, key by the association set and weigh by the node's lines")
+_NODE_RE = re.compile(r"isinstance\((?P<node>(?P<state>.+?)\.get_tree\((?P<file>.+?)\)\.walk\(\)\[(?P<j>\d+)\]), CodeNode\)$")
+
+
+def visits(repo, f):
+    """Per path of the aggregator's decision table: the (file, node) pairs visited with the outcome
+    of the CodeNode test, and the effects that mention each node.  Loop forms (comprehension filter,
+    filter(lambda), for+if, for+continue, local helpers) are canonicalised by the engine."""
+    from .. import review
+
+    paths = review.table(f)
+    if not paths:
+        raise AnalysisError(f"{f.key}: decision table not available (path explosion)")
+    out = []
+    for p in paths:
+        nodes = []
+        for k, v in p.atoms.items():
+            m = _NODE_RE.match(k)
+            if m:
+                nodes.append((m.group("state"), m.group("file"), m.group("node"), v))
+        out.append((p, nodes))
+    return out
+
+
+def _mentions(e, text):
+    return any(text in vtext(x) for x in e[1:])
+
+
+@rule("C06.R1", "per-file aggregation: every CodeNode of the file's tree adds node.num_lines exactly once to setmap[frozenset(association_of_that_file[node])]; nothing else is added")
 def r1(ctx):
     repo = ctx.repo
-    for short, q in AGGREGATORS[:3]:
+    for short, q in AGGREGATORS[:2]:
         f = repo.func(short, q)
-        loop, cbn = _outer_loop(repo, f)
-        fv = u(loop.target)
-        key = f"{f.key}:per-file-aggregation"
-        nl = _node_loops(loop)
-        if len(nl) != 1:
-            ctx.violation(key, f"expected one loop over `[n for n in <tree>.walk() if isinstance(n, CodeNode)]` per file, found {len(nl)}", f.loc(loop))
-            continue
-        src, var, body, node = nl[0]
-        # tree and association both looked up for the loop's file
-        env = {}
-        for s in ast.walk(loop):
-            if isinstance(s, ast.Assign) and isinstance(s.targets[0], ast.Name):
-                env[s.targets[0].id] = s.value
-        tree_src = src[: -len(".walk()")] if src.endswith(".walk()") else src
-        tree_expr = u(env[tree_src]) if tree_src in env else tree_src
-        state_names = ("self", "state")
-        ok_tree = any(tree_expr == f"{s}.get_tree({fv})" for s in state_names)
-        assoc_names = [k for k, v in env.items() if any(u(v) == f"{s}.get_map({fv})" for s in state_names)]
-        ctx.check(ok_tree and len(assoc_names) == 1, key + ":same-file", f"tree is {tree_expr}; the tree and the association map must both be looked up for the file being counted ({fv})", f.loc(node))
-        if not assoc_names:
-            continue
-        am = assoc_names[0]
-        btxt = u(body)
-        if q == "_compute":
-            continue  # partition checked in R2
-        # setmap[frozenset(association[node])] += node.num_lines
-        ok = False
-        why = btxt
-        envb = {}
-        for s in body:
-            if isinstance(s, ast.Assign) and isinstance(s.targets[0], ast.Name):
-                envb[s.targets[0].id] = s.value
-        augs = [s for s in body if isinstance(s, ast.AugAssign)]
-        if len(augs) == 1 and isinstance(augs[0].op, ast.Add) and isinstance(augs[0].target, ast.Subscript):
-            k = augs[0].target.slice
-            k = envb.get(k.id, k) if isinstance(k, ast.Name) else k
-            ok = u(k) == f"frozenset({am}[{var}])" and u(augs[0].value) == f"{var}.num_lines" and u(augs[0].target.value) == "setmap"
-        ctx.check(ok, key + ":key-and-weight", f"each CodeNode must add node.num_lines to setmap[frozenset(association[node])] exactly once: `{why[:120]}`", f.loc(node))
-    ctx.floor(5)
+        seen_t = seen_f = 0
+        for p, nodes in visits(repo, f):
+            augs = [e for e in p.effects if e[0] == "aug" and "frozenset(" in str(e[1])]
+            want = []
+            for state, file, node, v in nodes:
+                if v:
+                    want.append((f"[frozenset({state}.get_map({file})[{node}])]", f"{node}.num_lines"))
+            key = f"{f.key}:per-file-aggregation:" + ",".join(f"{_abbr(k)}={int(v)}" for k, v in p.atoms.items() if "CodeNode" in k or "get_map" in k)
+            ok = len(augs) == len(want)
+            why = f"{len(augs)} additions for {len(want)} CodeNodes visited"
+            if ok:
+                for (tgt_sfx, val), e in zip(want, augs):
+                    if not (str(e[1]).endswith(tgt_sfx) and e[2] == "Add" and vtext(e[3]) == val):
+                        ok = False
+                        why = f"`{e[1]} += {vtext(e[3])}`; expected `<setmap>{tgt_sfx} += {val}`"
+            for state, file, node, v in nodes:
+                if not _is_loop_item(p, file):
+                    ok = False
+                    why = f"the tree walked is that of `{file}`, which is not the file being visited by the loop over the code base"
+            seen_t += bool(want)
+            seen_f += any(not v for _, _, _, v in nodes)
+            ctx.check(ok, key, f"each CodeNode (and nothing else) must add its num_lines once to the set of platforms associated with it IN THE MAP OF THE SAME FILE: {why}", f.loc())
+        if not (seen_t and seen_f):
+            raise AnalysisError(f"{f.key}: no path visits a CodeNode / a non-CodeNode of `<state>.get_tree(<file>).walk()`: aggregation idiom not recognised")
+    ctx.floor(8)
+
+
+def _is_loop_item(p, file):
+    m = re.match(r"(.+)\[(\d+)\]$", file)
+    return m is not None and any(k.startswith(f"more({m.group(1)}#L") and v for k, v in p.atoms.items())
+
+
+def _tv(v):
+    return "-" if v is None else int(v)
+
+
+def _abbr(k):
+    return re.sub(r"\w+\.get_tree\((.+?)\)\.walk\(\)", r"walk(\1)", k)[:80]
 
 
 @rule("C06.R2", "coverage export: every node's lines go to exactly one of used / unused; id is the hash of the listed file")
@@ -104,36 +131,40 @@ def r2(ctx):
     f = repo.func("coverage.__main__", "_compute")
     loop, cbn = _outer_loop(repo, f)
     fv = u(loop.target)
-    nl = _node_loops(loop)
-    ctx.require(len(nl) == 1, "_compute: node loop not found")
-    src, var, body, node = nl[0]
+    seen = set()
+    for p, nodes in visits(repo, f):
+        from ..spec import appended
 
-    class H(Hooks):
-        pass
-
-    wrapper = ast.parse("def _f():\n    pass").body[0]
-    wrapper.body = body
-    paths = Evaluator(H()).paths(wrapper)
-    for p in paths:
-        key = f"{f.key}:partition:" + ",".join(f"{k[:50]}={int(v)}" for k, v in p.atoms.items())
-        ext = [e for e in p.effects if e[0] == "call" and e[1].endswith(".extend")]
-        ok = len(ext) == 1 and vtext(ext[0][2]) == f"{var}.lines" and len(p.atoms) == 1
-        if ok:
-            k, v = next(iter(p.atoms.items()))
-            empty = None
-            if " Eq " in k and ("frozenset([])" in k or "frozenset()" in k or "set()" in k) and f"[{var}]" in k:
-                empty = v
-            elif k.endswith(f"[{var}]") or k.startswith("len("):
-                empty = not v
-            ok = empty is not None and ext[0][1] == ("unused_lines.extend" if empty else "used_lines.extend")
-        ctx.check(ok, key, f"a node's lines must be appended to unused_lines iff no platform uses it, else to used_lines: {p.describe()[:200]}", f.loc(node))
+        exts = [("call", f"{nm}.extend", t[1:]) for nm in ("used_lines", "unused_lines") for t in appended(p, nm) if t.startswith("*")]
+        for state, file, node, v in nodes:
+            mine = [e for e in exts if e[2] == f"{node}.lines"]
+            amap = f"{state}.get_map({file})[{node}]"
+            tests = {k: val for k, val in p.atoms.items() if amap in k}
+            key = f"{f.key}:partition:codenode={int(v)}," + ",".join(f"{_abbr(k).replace(_abbr(amap), 'ASSOC')[:40]}={int(val)}" for k, val in tests.items())
+            if not v:
+                ctx.check(not mine, key, f"a node that is not a CodeNode must not contribute lines: {[e[1] for e in mine]}", f.loc(loop))
+                continue
+            ok = len(mine) == 1 and len(tests) == 1 and _is_loop_item(p, file)
+            if ok:
+                k, val = next(iter(tests.items()))
+                empty = None
+                form = k.replace(amap, "A")
+                if form in ("A", "len(A)", "0 Lt len(A)", "len(A) Gt 0", "0 NotEq len(A)", "len(A) NotEq 0", "bool(A)"):
+                    empty = not val
+                elif re.fullmatch(r"(0 Eq len\(A\)|len\(A\) Eq 0|(frozenset\()?A\)? Eq (frozenset|set)\((\[\])?\)|(frozenset|set)\((\[\])?\) Eq (frozenset\()?A\)?)", form):
+                    empty = val
+                ok = empty is not None and mine[0][1] == ("unused_lines.extend" if empty else "used_lines.extend")
+                seen.add(empty)
+            ctx.check(ok, key, f"a CodeNode's lines must be appended once: to unused_lines iff no platform is associated with it in the map OF THE SAME FILE, else to used_lines: {[(e[1], vtext(e[2])) for e in exts]} under {tests}", f.loc(loop))
+    if seen != {True, False}:
+        raise AnalysisError(f"{f.key}: used/unused partition idiom not recognised ({seen})")
     # entry: file path and digest refer to the same file
     opens = [w for w in ast.walk(loop) if isinstance(w, ast.With) and any(isinstance(i.context_expr, ast.Call) and u(i.context_expr.func) == "open" for i in w.items)]
     ok = len(opens) == 1
     if ok:
         oc = opens[0].items[0].context_expr
         ok = u(oc.args[0]) == fv and len(oc.args) > 1 and u(oc.args[1]) == "'rb'" and "hashlib.file_digest" in u(opens[0].body) and "'sha512'" in u(opens[0].body)
-    ctx.check(ok, f"{f.key}:id-is-sha512-of-file", "the entry's id must be the sha512 of the bytes of the file it names (opened 'rb')", f.loc(loop))
+    ctx.soft(ok, f"{f.key}:id-is-sha512-of-file", "the entry's id must be the sha512 of the bytes of the file it names (opened 'rb')", f.loc(loop))
     app = [c for c in ast.walk(loop) if isinstance(c, ast.Call) and u(c.func) == "covarray.append"]
     ok = len(app) == 1 and isinstance(app[0].args[0], ast.Dict)
     if ok:
@@ -141,10 +172,10 @@ def r2(ctx):
         ok = d.get("used_lines") == "used_lines" and d.get("unused_lines") == "unused_lines" and d.get("id") == "digest.hexdigest()" and d.get("file") == "relative_path"
         rel = [s for s in ast.walk(loop) if isinstance(s, ast.Assign) and u(s.targets[0]) == "relative_path"]
         ok = ok and len(rel) == 1 and u(rel[0].value) == f"os.path.relpath({fv}, start=source_dir)"
-    ctx.check(ok, f"{f.key}:entry-fields", "each file contributes one entry {file: path relative to the source dir, id, used_lines, unused_lines}", f.loc(loop))
+    ctx.soft(ok, f"{f.key}:entry-fields", "each file contributes one entry {file: path relative to the source dir, id, used_lines, unused_lines}", f.loc(loop))
     # fresh lists per file
     fresh = [s for s in loop.body if isinstance(s, ast.Assign) and u(s.targets[0]) in ("used_lines", "unused_lines") and isinstance(s.value, ast.List) and not s.value.elts]
-    ctx.check(len(fresh) == 2, f"{f.key}:fresh-lists-per-file", "used_lines / unused_lines must be re-created for every file", f.loc(loop))
+    ctx.soft(len(fresh) == 2, f"{f.key}:fresh-lists-per-file", "used_lines / unused_lines must be re-created for every file", f.loc(loop))
     ctx.floor(4)
 
 
@@ -158,15 +189,15 @@ def r4(ctx):
     lp = loops[0]
     it = lp.iter
     ok = isinstance(it, ast.Call) and u(it.func) == "sorted" and u(it.args[0]) in (f"{sm}.keys()", sm)
-    ctx.check(ok, "report:summary:rows-iterate-all-keys", f"rows must iterate every key of the setmap once: {u(it)}", f.loc(lp))
+    ctx.soft(ok, "report:summary:rows-iterate-all-keys", f"rows must iterate every key of the setmap once: {u(it)}", f.loc(lp))
     v = u(lp.target)
     body = u(lp.body)
     tot = [s for s in walk_no_nested(f.node) if isinstance(s, ast.Assign) and u(s.targets[0]) == "total"]
-    ctx.check(len(tot) == 1 and u(tot[0].value) == f"sum({sm}.values())", "report:summary:total", "total must be the sum of all setmap values", f.loc())
-    ctx.check(f"total_count += {sm}[{v}]" in body, "report:summary:total_count", "Total SLOC must accumulate every row's count", f.loc(lp))
-    ctx.check(f"count = {sm}[{v}]" in body and "str(count)" in body, "report:summary:row-count", "row count must be the setmap entry of the row's platform set", f.loc(lp))
-    ctx.check(f"float({sm}[{v}]) / float(total) * 100" in body, "report:summary:percent", "percentage must be row / total * 100", f.loc(lp))
-    ctx.check("', '.join(sorted(" + v + "))" in body, "report:summary:row-name-sorted", "the platform set must be printed with its platforms sorted", f.loc(lp))
+    ctx.soft(len(tot) == 1 and u(tot[0].value) == f"sum({sm}.values())", "report:summary:total", "total must be the sum of all setmap values", f.loc())
+    ctx.soft(f"total_count += {sm}[{v}]" in body, "report:summary:total_count", "Total SLOC must accumulate every row's count", f.loc(lp))
+    ctx.soft(f"count = {sm}[{v}]" in body and "str(count)" in body, "report:summary:row-count", "row count must be the setmap entry of the row's platform set", f.loc(lp))
+    ctx.soft(f"float({sm}[{v}]) / float(total) * 100" in body, "report:summary:percent", "percentage must be row / total * 100", f.loc(lp))
+    ctx.soft("', '.join(sorted(" + v + "))" in body, "report:summary:row-name-sorted", "the platform set must be printed with its platforms sorted", f.loc(lp))
     ctx.floor(6)
 
 
@@ -182,12 +213,12 @@ def r5(ctx):
     ctx.require(len(augs) == 1, "FileTree.insert: propagation `parent.setmap[ps] += setmap[ps]` not found")
     aug = augs[0]
     ok = u(aug.target) == "parent.setmap[ps]" and u(aug.value) == f"{smp}[ps]" and isinstance(aug.op, ast.Add)
-    ctx.check(ok, "report:FileTree.insert:propagation", f"`{u(aug)}` must add the file's own setmap entry to the ancestor's", ins.loc(aug))
+    ctx.soft(ok, "report:FileTree.insert:propagation", f"`{u(aug)}` must add the file's own setmap entry to the ancestor's", ins.loc(aug))
     # enclosing loops / guards
     enc_for = [n for n in walk_no_nested(ins.node) if isinstance(n, ast.For) and any(x is aug for x in ast.walk(n))]
     ps_loop = [n for n in enc_for if u(n.target) == "ps"]
     ok = len(ps_loop) == 1 and u(ps_loop[0].iter) in (f"{smp}.keys()", smp)
-    ctx.check(ok, "report:FileTree.insert:all-platform-sets", "every platform set of the file must be propagated", ins.loc(aug))
+    ctx.soft(ok, "report:FileTree.insert:all-platform-sets", "every platform set of the file must be propagated", ins.loc(aug))
     guards = [n for n in walk_no_nested(ins.node) if isinstance(n, ast.If) and any(x is aug for x in ast.walk(n))]
     sym = [g for g in guards if "is_symlink" in u(g.test)]
     key = "report:FileTree.insert:symlink-guard"
@@ -206,15 +237,15 @@ def r5(ctx):
     # the walk covers every ancestor below the root and the file itself, in order
     comp = [n for n in enc_for if n not in ps_loop]
     ok = len(comp) == 1 and u(comp[0].iter) == "list(reversed(filepath.parents)) + [filepath]"
-    ctx.check(ok, "report:FileTree.insert:ancestors", "must walk every ancestor from the root down to the file", ins.loc())
+    ctx.soft(ok, "report:FileTree.insert:ancestors", "must walk every ancestor from the root down to the file", ins.loc())
     if ok:
         first = comp[0].body[0]
         ok2 = isinstance(first, ast.If) and u(first.test) == "path == rootpath or not path.is_relative_to(rootpath)" and isinstance(first.body[0], ast.Continue)
-        ctx.check(ok2, "report:FileTree.insert:skip-above-root", "only components above (or equal to) the root may be skipped", ins.loc(first))
+        ctx.soft(ok2, "report:FileTree.insert:skip-above-root", "only components above (or equal to) the root may be skipped", ins.loc(first))
         # propagation happens before descending (parent is the ancestor of `path`)
         idx_aug = next(i for i, s in enumerate(comp[0].body) if any(x is aug for x in ast.walk(s)))
         idx_desc = next((i for i, s in enumerate(comp[0].body) if isinstance(s, ast.Assign) and u(s) == "parent = node"), None)
-        ctx.check(idx_desc is not None and idx_aug < idx_desc, "report:FileTree.insert:propagate-then-descend", "the ancestor must receive the counts before the walk descends", ins.loc())
+        ctx.soft(idx_desc is not None and idx_aug < idx_desc, "report:FileTree.insert:propagate-then-descend", "the ancestor must receive the counts before the walk descends", ins.loc())
     # files(): prune
     fl = repo.func("report", "files")
     loop, cbn = _outer_loop(repo, fl)
@@ -223,11 +254,11 @@ def r5(ctx):
     if ok:
         b = u(pr[0].body)
         ok = "platforms = set().union(*setmap.keys())" in b and "if len(platforms) == 0:\n    continue" in b
-    ctx.check(ok, "report:files:prune", "--prune must skip exactly the files whose platform union is empty", fl.loc(loop))
+    ctx.soft(ok, "report:files:prune", "--prune must skip exactly the files whose platform union is empty", fl.loc(loop))
     insc = [c for c in ast.walk(loop) if isinstance(c, ast.Call) and u(c.func) == "tree.insert"]
-    ctx.check(len(insc) == 1 and [u(a) for a in insc[0].args] == [u(loop.target), "setmap"], "report:files:insert-every-file", "every (non-pruned) code-base file must be inserted with its own setmap", fl.loc(loop))
+    ctx.soft(len(insc) == 1 and [u(a) for a in insc[0].args] == [u(loop.target), "setmap"], "report:files:insert-every-file", "every (non-pruned) code-base file must be inserted with its own setmap", fl.loc(loop))
     fresh = [s for s in loop.body if isinstance(s, ast.Assign) and u(s.targets[0]) == "setmap" and u(s.value) == "defaultdict(int)"]
-    ctx.check(len(fresh) == 1, "report:files:fresh-setmap-per-file", "setmap must be re-created for every file", fl.loc(loop))
+    ctx.soft(len(fresh) == 1, "report:files:fresh-setmap-per-file", "setmap must be re-created for every file", fl.loc(loop))
     # printing is pure: _print/_meta_str/write_to/_sloc_str do not write setmap
     for name in ("_print", "write_to"):
         g = ft.find_method(name)
@@ -243,42 +274,51 @@ def r5(ctx):
     # levels only cuts the recursion
     pr = ft.find_method("_print")
     first = [s for s in pr.node.body if isinstance(s, ast.If)][0]
-    ctx.check(u(first.test) == "levels and depth > levels" and u(first.body[0]) == "return []", "report:FileTree._print:levels", "-L must only stop the recursion below the given depth", pr.loc(first))
+    ctx.soft(u(first.test) == "levels and depth > levels" and u(first.body[0]) == "return []", "report:FileTree._print:levels", "-L must only stop the recursion below the given depth", pr.loc(first))
     # _sloc_str / root totals: sum of all values
     ss = node.methods.get("_sloc_str")
-    ctx.check(ss is not None and "sum(self.setmap.values())" in u(ss.node), "report:FileTree.Node._sloc_str:sum", "a row's SLOC must be the sum of its setmap", ss.loc() if ss else node.loc())
+    ctx.soft(ss is not None and "sum(self.setmap.values())" in u(ss.node), "report:FileTree.Node._sloc_str:sum", "a row's SLOC must be the sum of its setmap", ss.loc() if ss else node.loc())
     ctx.floor(14)
 
 
 @rule("C06.R6", "symlink guard siblings: every consumer of the code base skips links whose target is in the code base")
 def r6(ctx):
     repo = ctx.repo
+    from .. import review
+
     for short, q in (("finder", "ParserState.get_setmap"), ("coverage.__main__", "_compute")):
         f = repo.func(short, q)
-        loop, cbn = _outer_loop(repo, f)
-        fv = u(loop.target)
         key = f"{f.key}:symlink-guard"
-        cb = sorted(cbn)[0]
-        guards = [s for s in loop.body if isinstance(s, ast.If) and "is_symlink" in u(s.test)]
-        if len(guards) != 1:
-            ctx.violation(key, "no guard `if path.is_symlink() and path.resolve() in codebase: continue` at the top of the per-file loop: a symlink and its target are both counted / listed", f.loc(loop))
-            continue
-        g = guards[0]
-        t = g.test
-        ok = isinstance(t, ast.BoolOp) and isinstance(t.op, ast.And) and len(t.values) == 2 and isinstance(g.body[0], ast.Continue) and not g.orelse
-        if ok:
-            a, b = t.values
-            env = {u(s.targets[0]): u(s.value) for s in loop.body if isinstance(s, ast.Assign)}
-            ok = (
-                isinstance(a, ast.Call) and isinstance(a.func, ast.Attribute) and a.func.attr == "is_symlink"
-                and env.get(u(a.func.value)) == f"Path({fv})"
-                and isinstance(b, ast.Compare) and isinstance(b.ops[0], ast.In) and u(b.comparators[0]) in cbn
-                and u(b.left) == f"{u(a.func.value)}.resolve()"
-            )
-        # guard must come before anything is counted
-        idx = loop.body.index(g)
-        counted_before = any(isinstance(x, (ast.AugAssign,)) or (isinstance(x, ast.Call) and u(x.func).endswith(".append")) for s in loop.body[:idx] for x in ast.walk(s))
-        ctx.check(ok and not counted_before, key, f"`{u(t)}` must be `Path(<file>).is_symlink() and Path(<file>).resolve() in <code base>` (the fully resolved target), skipping the file before anything is counted", f.loc(g))
+        paths = review.table(f)
+        if not paths:
+            raise AnalysisError(f"{f.key}: decision table not available")
+        n_skip = n_keep = 0
+        for p in paths:
+            files = []
+            for k, v in p.atoms.items():
+                m = re.match(r"more\((.+)#L\d+,(\d+)\)$", k)
+                if m and v and not m.group(1).endswith(".walk()"):
+                    files.append((m.group(1), f"{m.group(1)}[{m.group(2)}]"))
+            for cb, file in files:
+                link = p.atoms.get(f"Path({file}).is_symlink()")
+                inside = p.atoms.get(f"Path({file}).resolve() In {cb}")
+                touched = [e for e in p.effects if e[0] in ("aug", "call", "store") and e[0] != "loop-bound" and _mentions(e, f"({file})")]
+                walked = any(f".get_tree({file}).walk()#L" in k for k in p.atoms)
+                k2 = f"{key}:link={_tv(link)},target-in-codebase={_tv(inside)}"
+                if link is None:
+                    ctx.violation(k2, "the per-file loop does not ask whether the file is a symbolic link before counting it: a link and its target are both counted / listed", f.loc())
+                    continue
+                if link and inside is None:
+                    ctx.violation(k2, "a symbolic link is decided without asking whether its fully resolved target (`Path(file).resolve() in codebase`) is in the code base", f.loc())
+                    continue
+                if link and inside:
+                    n_skip += 1
+                    ctx.check(not walked and not touched, k2, f"a link whose target is in the code base must be skipped before anything is counted: {[e[1] for e in touched][:3]}", f.loc())
+                else:
+                    n_keep += 1
+                    ctx.check(walked, k2, "only links whose resolved target is in the code base may be skipped: this file is not walked", f.loc())
+        if not (n_skip and n_keep):
+            raise AnalysisError(f"{f.key}: symlink guard idiom not recognised (skip={n_skip}, keep={n_keep})")
     fd = repo.func("report", "find_duplicates")
     loop, cbn = _outer_loop(repo, fd)
     guards = [s for s in loop.body if isinstance(s, ast.If) and "is_symlink" in u(s.test)]
